@@ -242,6 +242,71 @@ pub fn port_key(k: usize) -> PortKey {
     PortKey { unit: k / 2, lane: k % 2 }
 }
 
+/// A key with two fields (serialised as a map / two-element structure, printed as `r<row>c<col>`).
+#[derive(Clone, Debug, PartialEq, Eq, Hash, PartialOrd, Ord, serde::Serialize, serde::Deserialize)]
+pub struct GridKey {
+    pub row: i32,
+    pub col: u8,
+}
+impl std::fmt::Display for GridKey {
+    fn fmt(&self, f: &mut std::fmt::Formatter<'_>) -> std::fmt::Result {
+        write!(f, "r{}c{}", self.row, self.col)
+    }
+}
+
+/// One round trip of the graph `(n, edges)` instantiated with other key, node-value and
+/// edge-value types: returns the description (keys, node values, per node the edges with their
+/// values) before and after.
+macro_rules! alt_rt {
+    ($m:ident, $K:ty, $N:ty, $E:ty, $key:expr, $nv:expr, $ev:expr, $n:ident, $edges:ident, $wire:ident, $directed:expr) => {{
+        type G = gdsl::$m::Graph<$K, $N, $E>;
+        let key = $key;
+        let nv = $nv;
+        let ev = $ev;
+        let nodes: Vec<gdsl::$m::Node<$K, $N, $E>> = (0..$n).map(|k| gdsl::$m::Node::new(key(k), nv(k))).collect();
+        for (i, (u, v)) in $edges.iter().enumerate() {
+            nodes[*u].connect(&nodes[*v], ev(i));
+        }
+        let mut g: G = gdsl::$m::Graph::new();
+        for x in &nodes {
+            g.insert(x.clone());
+        }
+        let describe = |g: &G| -> String {
+            let mut d: Vec<($K, String, Vec<($K, String)>)> = g
+                .iter()
+                .map(|(k, node)| {
+                    let mut out: Vec<($K, String)> = Vec::new();
+                    for gdsl::$m::Edge(_, b, e) in node {
+                        out.push((b.key().clone(), format!("{e:?}")));
+                    }
+                    if !$directed {
+                        // undirected: the multiset of incident edges is what round-trips
+                        out.sort();
+                    }
+                    (k.clone(), format!("{:?}", node.value()), out)
+                })
+                .collect();
+            d.sort();
+            format!("{d:?}")
+        };
+        let before = describe(&g);
+        let bytes = match $wire {
+            Wire::Cbor => serde_cbor::to_vec(&g).map_err(|e| e.to_string())?,
+            Wire::JsonValue => serde_json::to_vec(&serde_json::to_value(&g).map_err(|e| e.to_string())?).map_err(|e| e.to_string())?,
+            _ => serde_json::to_vec(&g).map_err(|e| e.to_string())?,
+        };
+        let g2: G = match $wire {
+            Wire::Cbor => serde_cbor::from_slice(&bytes).map_err(|e| e.to_string())?,
+            Wire::JsonValue => {
+                let v: serde_json::Value = serde_json::from_slice(&bytes).map_err(|e| e.to_string())?;
+                serde_json::from_value(v).map_err(|e| e.to_string())?
+            }
+            _ => serde_json::from_slice(&bytes).map_err(|e| e.to_string())?,
+        };
+        Ok((before, describe(&g2)))
+    }};
+}
+
 pub trait SyncFlavour: Flavour
 where
     Self::Node: Send + Sync,
@@ -489,49 +554,38 @@ macro_rules! common_graph_items {
             Ok(d)
         }
         fn alt_round_trip(n: usize, edges: &[(usize, usize)], wire: Wire, key_style: u8) -> Result<(String, String), String> {
-            type G = gdsl::$m::Graph<String, (), ()>;
-            let key = |k: usize| alt_key(key_style, k);
-            let nodes: Vec<gdsl::$m::Node<String, (), ()>> = (0..n).map(|k| gdsl::$m::Node::new(key(k), ())).collect();
-            for (u, v) in edges {
-                nodes[*u].connect(&nodes[*v], ());
+            // three instantiations of the generic code besides the simulators' own payloads
+            match (key_style / 4) % 3 {
+                0 => alt_rt!($m, String, (), (), |k: usize| alt_key(key_style, k), |_k: usize| (), |_i: usize| (), n, edges, wire, Self::DIRECTED),
+                // optional node values (some absent), zero-sized edge values that are not `()`
+                1 => alt_rt!(
+                    $m,
+                    String,
+                    Option<String>,
+                    [u8; 0],
+                    |k: usize| alt_key(key_style, k),
+                    |k: usize| if k % 3 == 0 { None } else { Some(alt_key(key_style.wrapping_add(1), k)) },
+                    |_i: usize| [0u8; 0],
+                    n,
+                    edges,
+                    wire,
+                    Self::DIRECTED
+                ),
+                // a two-field key, nested node values of varying length, edge values at the top of u64
+                _ => alt_rt!(
+                    $m,
+                    GridKey,
+                    Vec<(i8, String)>,
+                    u64,
+                    |k: usize| GridKey { row: k as i32 / 3 - 2, col: (k % 3) as u8 },
+                    |k: usize| (0..k % 4).map(|j| (j as i8 - 1, alt_key(key_style, j))).collect::<Vec<_>>(),
+                    |i: usize| u64::MAX - (i as u64 % 7),
+                    n,
+                    edges,
+                    wire,
+                    Self::DIRECTED
+                ),
             }
-            let mut g: G = gdsl::$m::Graph::new();
-            for x in &nodes {
-                g.insert(x.clone());
-            }
-            let describe = |g: &G| -> String {
-                let mut d: Vec<(String, Vec<String>)> = g
-                    .iter()
-                    .map(|(k, node)| {
-                        let mut out: Vec<String> = Vec::new();
-                        for gdsl::$m::Edge(_, b, _) in node {
-                            out.push(b.key().clone());
-                        }
-                        if !Self::DIRECTED {
-                            // undirected: the multiset of incident edges is what round-trips
-                            out.sort();
-                        }
-                        (k.clone(), out)
-                    })
-                    .collect();
-                d.sort();
-                format!("{d:?}")
-            };
-            let before = describe(&g);
-            let bytes = match wire {
-                Wire::Cbor => serde_cbor::to_vec(&g).map_err(|e| e.to_string())?,
-                Wire::JsonValue => serde_json::to_vec(&serde_json::to_value(&g).map_err(|e| e.to_string())?).map_err(|e| e.to_string())?,
-                _ => serde_json::to_vec(&g).map_err(|e| e.to_string())?,
-            };
-            let g2: G = match wire {
-                Wire::Cbor => serde_cbor::from_slice(&bytes).map_err(|e| e.to_string())?,
-                Wire::JsonValue => {
-                    let v: serde_json::Value = serde_json::from_slice(&bytes).map_err(|e| e.to_string())?;
-                    serde_json::from_value(v).map_err(|e| e.to_string())?
-                }
-                _ => serde_json::from_slice(&bytes).map_err(|e| e.to_string())?,
-            };
-            Ok((before, describe(&g2)))
         }
     };
 }
